@@ -120,6 +120,28 @@ func rulePrefix(c *Ctx, prefix string, want map[string]bool) {
 			}
 		}
 		if call, ok := in.(*ssa.Call); ok {
+			// NO-HINT: the list the hint loops walk is the request's IAPrefix list when that is
+			// non-empty, and the one-element placeholder exactly when it is empty
+			if f := call.Call.StaticCallee(); f != nil && f.String() == pkgBitset+".New" && len(call.Call.Args) == 1 {
+				a := ex.Canon(st, call.Call.Args[0]).S
+				if m := regexp.MustCompile(`^conv<uint>\(len\((.*)\)\)$`).FindStringSubmatch(a); m != nil && !strings.Contains(m[1], "Records[") {
+					counts["hintlist"]++
+					pfx := regexp.MustCompile(`^len\(\(` + reQ(pkgDHCP6) + `\.PDOptions\)\.Prefixes\(.*\)\)$`)
+					empty, _ := histEq(st, pfx, "0")
+					switch {
+					case strings.HasPrefix(m[1], "("+pkgDHCP6+".PDOptions).Prefixes("):
+						if empty != 0 {
+							addb("KEEP.NO-HINT", fmt.Sprintf("at %s the hint loops walk the request's IAPrefix list without it having been found non-empty (empty=%s): an IA_PD without IAPrefix options (with or without other sub-options) is not treated as one unspecified hint, so a known client gets NoPrefixAvail instead of its prefix", c.P.InstrPos(in), tri(empty)))
+						}
+					case strings.HasPrefix(m[1], "new@"):
+						if empty != 1 {
+							addb("KEEP.NO-HINT", fmt.Sprintf("at %s the placeholder hint replaces the request's hints although the IAPrefix list was not found empty (empty=%s)", c.P.InstrPos(in), tri(empty)))
+						}
+					default:
+						addb("KEEP.NO-HINT", "the list of hints is neither the request's IAPrefix list nor the placeholder: "+shortName(stripAt(m[1])))
+					}
+				}
+			}
 			// EMPTY-HINT: comparing an address that is still the zero value of a placeholder
 			// literal with a non-empty constant is constantly false
 			if f := call.Call.StaticCallee(); f != nil && f.String() == "(net.IP).Equal" && len(call.Call.Args) == 2 {
@@ -440,6 +462,10 @@ func rulePrefix(c *Ctx, prefix string, want map[string]bool) {
 		emit("KEEP.REUSE-FIRST", "new blocks are allocated only for hints that no known lease satisfied")
 		emit("KEEP.MARK", "handing back a known lease marks both the hint and the lease")
 		emit("KEEP.EXACT", "a known lease is reused only for an equal hinted prefix or as a not-yet-given lease for an empty hint")
+		if counts["hintlist"] == 0 {
+			addb("KEEP.NO-HINT", "no per-hint bitmap sized by the hint list found: shape not recognised")
+		}
+		emit("KEEP.NO-HINT", fmt.Sprintf("the hint list is the request's IAPrefix list when non-empty and the one-element placeholder exactly when it is empty (%d abstract states)", counts["hintlist"]))
 		emit("KEEP.EMPTY-HINT", fmt.Sprintf("no comparison of a never-assigned placeholder address with a non-empty constant (%d abstract (net.IP).Equal states examined)", counts["equal"]))
 		if counts["passed-over"] == 0 {
 			addb("KEEP.EMPTY-REUSE", "no loop over the recorded leases tests the given-out bitmap: shape not recognised")
